@@ -23,14 +23,14 @@ def gen_spec(rng, max_depth=6, bases=("sync", "pool"), types=LAYER_TYPES, vt=Fal
             L["error_fn"] = rng.choice([None, None, "wrap", "reraise", "recover", "recover_none"])
             L["fn"] = rng.choice(["tag", "tag", "none"])
         elif t == "flat_map":
-            L["fn"] = rng.choice(["ret", "ret", "none", "raise_on_odd"])
+            L["fn"] = rng.choice(["ret", "ret", "none", "raise_on_odd", "failed_if_recovered", "failed_on_odd"])
         elif t == "retry":
             L["max_attempts"] = rng.choice([1, 2, 3, 4])
             L["base"] = rng.choice(["Exception", "UserError", "UserErrorA"])
         elif t == "throttle":
             L["count"] = rng.choice([1, 2, 3, None, "callable"])
         elif t == "poll":
-            L["mode"] = rng.choice(["first", "first", "second_call"])
+            L["mode"] = rng.choice(["first", "first", "second_call", "fail_odd_in_handler"])
         layers.append(L)
     base = rng.choice(list(bases))
     return {"base": base, "workers": rng.choice([1, 2, 4, 8]), "layers": layers}
@@ -142,13 +142,34 @@ def make_error_fn(kind, k):
     return behave
 
 
+class FlatFail(Exception):
+    """outcome of a failed future handed back by a scripted flat-map function"""
+
+
+class PollFail(Exception):
+    """yielded by a scripted poll function"""
+
+
+class BackendDown(Exception):
+    """raised and handled inside a scripted poll function"""
+
+
 def make_flat_fn(kind, k):
     def behave(idx, x):
-        from more_executors.futures import f_return
+        from more_executors.futures import f_return, f_return_error
         if kind == "raise_on_odd" and _parity(x):
             raise UserErrorB("fm%d-odd" % k)
+        if (kind == "failed_if_recovered" and _has_rec(x)) or (kind == "failed_on_odd" and _parity(x)):
+            # the function succeeds; the future it hands back has failed
+            return f_return_error(FlatFail("fm%d" % k, x))
         return f_return(("fm%d" % k, x))
     return behave
+
+
+def _has_rec(x):
+    if isinstance(x, tuple):
+        return any(_has_rec(y) for y in x)
+    return isinstance(x, str) and x.startswith("rec")
 
 
 def _parity(x):
@@ -176,6 +197,13 @@ def make_poll_fn(mode, k, b):
             n = seen.get(key, 0)
             seen[key] = n + 1
             if mode == "never" or (mode == "second_call" and n == 0):
+                continue
+            if mode == "fail_odd_in_handler" and _parity(d.result):
+                # the poll function translates a failure it handled itself into this future's outcome
+                try:
+                    raise BackendDown("backend of poll%d" % k)
+                except BackendDown:
+                    d.yield_exception(PollFail("p%d" % k, d.result))
                 continue
             d.yield_result(("p%d" % k, d.result))
         return None
@@ -258,10 +286,14 @@ def model(spec, script):
                     return o
                 if fk == "raise_on_odd" and _parity(o[1]):
                     return ("exc", UserErrorB, "fmap%d" % k)
+                if (fk == "failed_if_recovered" and _has_rec(o[1])) or (fk == "failed_on_odd" and _parity(o[1])):
+                    return ("exc", FlatFail, "fmap%d" % k)
                 return ("value", ("fm%d" % k, o[1]))
             return o
         if t == "poll":
             if o[0] == "value":
+                if L.get("mode") == "fail_odd_in_handler" and _parity(o[1]):
+                    return ("exc", PollFail, "poll%d" % k)
                 return ("value", ("p%d" % k, o[1]))
             return o
         return o  # throttle, timeout (never fires), cos
